@@ -339,7 +339,41 @@ func c02Deferred(c *Ctx) {
 				names = append(names, "Seek")
 				o, ok1 := cc.Args[0].(*ssa.Const)
 				w, ok2 := cc.Args[1].(*ssa.Const)
-				if ok1 && ok2 && o.Int64() == 0 && w.Int64() == 0 && dominates(call.(ssa.Instruction), at) {
+				seekDominates := dominates(call.(ssa.Instruction), at)
+				if ok1 && ok2 && o.Int64() == 0 && w.Int64() == 0 && !seekDominates {
+					// the rewind is skipped on some path: acceptable when every such
+					// path left a fill of the buffer on its failure edge (the error of
+					// a call that was handed the buffer is known to be non-nil), which
+					// is not a path on which the buffer is meant to be queued
+					skip := map[[2]*ssa.BasicBlock]bool{}
+					for _, src2 := range vals {
+						if src2.Referrers() == nil {
+							continue
+						}
+						for _, r2 := range *src2.Referrers() {
+							users := []ssa.Instruction{r2}
+							if ci, ok := r2.(*ssa.ChangeInterface); ok {
+								users = append(users, *ci.Referrers()...)
+							}
+							if mi, ok := r2.(*ssa.MakeInterface); ok {
+								users = append(users, *mi.Referrers()...)
+							}
+							for _, u := range users {
+								if fill, ok := u.(ssa.CallInstruction); ok && fill != call {
+									for e := range errFailureEdgesThroughNot(fill) {
+										skip[e] = true
+									}
+								}
+							}
+						}
+					}
+					seekBlock := call.(ssa.Instruction).Block()
+					entry := at.Parent().Blocks[0]
+					if len(skip) > 0 && at.Block() != seekBlock && !reachableAvoidingSet(entry, map[*ssa.BasicBlock]bool{seekBlock: true}, skip)[at.Block()] {
+						rewound = true
+					}
+				}
+				if ok1 && ok2 && o.Int64() == 0 && w.Int64() == 0 && seekDominates {
 					// … and nothing is written into the buffer between the rewind and
 					// the moment it is queued (a rewind before the buffer is filled
 					// leaves it positioned at its end)
@@ -412,4 +446,55 @@ func c02Deferred(c *Ctx) {
 	}
 	c.Check(rule, "writeRowGroup queues deferred bloom filters", fn.Pos(), n >= 2, "expected the two deferral sites (encoded and copied chunks)")
 	c.Min(rule, 3)
+}
+
+// errFailureEdgesThroughNot: errFailureEdges, also when the comparison of the
+// error with nil is kept in a boolean and tested negated (`failed := err != nil;
+// if !failed { … }`).
+func errFailureEdgesThroughNot(call ssa.CallInstruction) map[[2]*ssa.BasicBlock]bool {
+	out := errFailureEdges(call)
+	v := call.Value()
+	if v == nil || v.Referrers() == nil {
+		return out
+	}
+	var errVals []ssa.Value
+	if isErrorType(v.Type()) {
+		errVals = append(errVals, v)
+	}
+	for _, r := range *v.Referrers() {
+		if ex, ok := r.(*ssa.Extract); ok && isErrorType(ex.Type()) {
+			errVals = append(errVals, ex)
+		}
+	}
+	for _, ev := range errVals {
+		if ev.Referrers() == nil {
+			continue
+		}
+		for _, er := range *ev.Referrers() {
+			b, ok := er.(*ssa.BinOp)
+			if !ok || !(isNilConst(b.X) || isNilConst(b.Y)) || b.Referrers() == nil {
+				continue
+			}
+			for _, br := range *b.Referrers() {
+				not, ok := br.(*ssa.UnOp)
+				if !ok || not.Op != token.NOT || not.Referrers() == nil {
+					continue
+				}
+				for _, nr := range *not.Referrers() {
+					ifi, ok := nr.(*ssa.If)
+					if !ok {
+						continue
+					}
+					blk := ifi.Block()
+					// !(err != nil) true -> success; false edge is the failure edge
+					fail := blk.Succs[1]
+					if b.Op == token.EQL {
+						fail = blk.Succs[0]
+					}
+					out[[2]*ssa.BasicBlock{blk, fail}] = true
+				}
+			}
+		}
+	}
+	return out
 }
